@@ -37,6 +37,7 @@ DISP = 'pywbem_mock/_providerdispatcher.py'
 NSP = 'pywbem_mock/_namespaceprovider.py'
 MOCK = 'pywbem_mock/_wbemconnection_mock.py'
 STORE = 'pywbem_mock/_inmemoryrepository.py'
+SUBP = 'pywbem_mock/_subscriptionproviders.py'
 
 MUTATORS = [
     (MAIN, 'MainProvider', 'CreateClass'), (MAIN, 'MainProvider',
@@ -54,6 +55,15 @@ MUTATORS = [
     (DISP, 'ProviderDispatcher', 'DeleteInstance'),
     (NSP, 'CIMNamespaceProvider', 'CreateInstance'),
     (NSP, 'CIMNamespaceProvider', 'DeleteInstance'),
+    (SUBP, 'CIMIndicationFilterProvider', 'CreateInstance'),
+    (SUBP, 'CIMIndicationFilterProvider', 'ModifyInstance'),
+    (SUBP, 'CIMIndicationFilterProvider', 'DeleteInstance'),
+    (SUBP, 'CIMListenerDestinationProvider', 'CreateInstance'),
+    (SUBP, 'CIMListenerDestinationProvider', 'ModifyInstance'),
+    (SUBP, 'CIMListenerDestinationProvider', 'DeleteInstance'),
+    (SUBP, 'CIMIndicationSubscriptionProvider', 'CreateInstance'),
+    (SUBP, 'CIMIndicationSubscriptionProvider', 'ModifyInstance'),
+    (SUBP, 'CIMIndicationSubscriptionProvider', 'DeleteInstance'),
     (MOCK, 'FakedWBEMConnection', 'add_namespace'),
     (MOCK, 'FakedWBEMConnection', 'remove_namespace'),
 ]
@@ -92,6 +102,20 @@ def run(repo, rep, tier):
     # which repo functions write (transitively, through self.* calls)
     writes_memo = {}
 
+    mainprov = repo.cls(MAIN, 'MainProvider')
+
+    def super_method(f, d, call=None):
+        fn = call.func if call is not None else None
+        if isinstance(fn, ast.Attribute) and isinstance(fn.value, ast.Call) \
+                and isinstance(fn.value.func, ast.Name) and \
+                fn.value.func.id == 'super' and f.cls is not None:
+            for c in f.cls.mro()[1:]:
+                if fn.attr in c.methods:
+                    return c.methods[fn.attr]
+        if d.startswith('self._mainprovider.') and d.count('.') == 2:
+            return mainprov.find_method(d.split('.')[2])
+        return None
+
     def writes(f, depth=0):
         if f.fq in writes_memo:
             return writes_memo[f.fq]
@@ -109,6 +133,9 @@ def run(repo, rep, tier):
                         if m is not None and m is not f and \
                                 writes(m, depth + 1):
                             w = True
+                    sm = super_method(f, d, n)
+                    if sm is not None and writes(sm, depth + 1):
+                        w = True
         writes_memo[f.fq] = w
         return w
 
@@ -123,6 +150,9 @@ def run(repo, rep, tier):
                     m = f.cls.find_method(d[5:])
                     if m is not None and m is not f and writes(m):
                         return True
+                sm = super_method(f, d, c)
+                if sm is not None and writes(sm):
+                    return True
                 # dispatcher -> provider, mainprovider -> dispatcher
                 if d.split('.')[-1] in ('CreateInstance', 'ModifyInstance',
                                         'DeleteInstance') and \
